@@ -41,6 +41,14 @@ impl Error {
         self
     }
 
+    /// Give the error a position if it does not have one yet.
+    pub fn or_pos(mut self, pos: Position) -> Self {
+        if self.pos.is_none() {
+            self.pos = Some(pos);
+        }
+        self
+    }
+
     pub fn push_call_stack(&mut self, pos: Position) {
         self.call_stack.push(pos);
     }
